@@ -771,6 +771,68 @@ def desugared(fi: "FuncInfo") -> "FuncInfo":
     return dataclasses.replace(fi, node=node)
 
 
+class _Range2Elem(ast.NodeTransformer):
+    """`for k in range(len(seq)): v = seq[k]; B` -> `for v in seq: B` when
+    k is used nowhere else in the loop and neither seq, k nor v is re-bound
+    or seq resized in B (the inverse of `_Enum2Range` for loops that only
+    need the elements)."""
+
+    def visit_For(self, n: ast.For) -> ast.AST:
+        self.generic_visit(n)
+        it = n.iter
+        if not (isinstance(it, ast.Call) and isinstance(
+                it.func, ast.Name) and it.func.id == "range" and len(
+                it.args) == 1 and not it.keywords and isinstance(
+                it.args[0], ast.Call) and isinstance(
+                it.args[0].func, ast.Name) and it.args[0].func.id == "len"
+                and len(it.args[0].args) == 1 and isinstance(
+                it.args[0].args[0], ast.Name) and isinstance(
+                n.target, ast.Name) and n.body and not n.orelse):
+            return n
+        seq, kv = it.args[0].args[0].id, n.target.id
+        first = n.body[0]
+        tg = first.targets[0] if isinstance(first, ast.Assign) and len(
+            first.targets) == 1 else (first.target if isinstance(
+                first, ast.AnnAssign) and first.value is not None else None)
+        val = getattr(first, "value", None)
+        if not (isinstance(tg, ast.Name) and isinstance(
+                val, ast.Subscript) and isinstance(
+                val.value, ast.Name) and val.value.id == seq and isinstance(
+                val.slice, ast.Name) and val.slice.id == kv):
+            return n
+        rest = n.body[1:]
+        if not rest:
+            return n
+        for x in ast.walk(ast.Module(body=rest, type_ignores=[])):
+            if isinstance(x, ast.Name) and x.id == kv:
+                return n
+            if isinstance(x, ast.Name) and isinstance(
+                    x.ctx, (ast.Store, ast.Del)) and x.id in (seq, tg.id):
+                return n
+            if isinstance(x, ast.Call) and isinstance(
+                    x.func, ast.Attribute) and isinstance(
+                    x.func.value, ast.Name) and x.func.value.id == seq \
+                    and x.func.attr in MUTATORS:
+                return n
+        new = ast.For(target=ast.Name(id=tg.id, ctx=ast.Store()),
+                      iter=ast.Name(id=seq, ctx=ast.Load()), body=rest,
+                      orelse=[])
+        ast.copy_location(new, n)
+        ast.copy_location(new.target, n)
+        ast.copy_location(new.iter, n)
+        return new
+
+
+def elementwise(fi: "FuncInfo") -> "FuncInfo":
+    """The function with index loops that only fetch the element written as
+    loops over the elements (a copy; the original is untouched)."""
+    import copy
+    import dataclasses
+    node = ast.fix_missing_locations(
+        _Range2Elem().visit(copy.deepcopy(fi.node)))
+    return dataclasses.replace(fi, node=node)
+
+
 def fold_consts(repo: "Repo", module: "Module", e: ast.AST) -> ast.AST:
     """A copy of the expression in which every name / attribute that
     resolves to a module-level numeric or string constant is replaced by
@@ -796,3 +858,16 @@ def fold_consts(repo: "Repo", module: "Module", e: ast.AST) -> ast.AST:
         def visit_Attribute(self, n: ast.Attribute) -> ast.AST:
             return self._fold(n)
     return ast.fix_missing_locations(F().visit(copy.deepcopy(e)))
+
+
+def bound_args(call: ast.Call, params: list[str]) -> dict[str, ast.expr]:
+    """Arguments of a call by parameter name: positional ones are bound in
+    order, keyword ones by their name (starred arguments are ignored)."""
+    out: dict[str, ast.expr] = {}
+    for p_, a in zip(params, call.args):
+        if not isinstance(a, ast.Starred):
+            out[p_] = a
+    for k in call.keywords:
+        if k.arg is not None:
+            out[k.arg] = k.value
+    return out
